@@ -3,3 +3,5 @@ CONSTANTS
   LenX = 4
   LenJ = 4
   JStride = 2
+  XFull = 8
+  XStride = 1
